@@ -27,8 +27,11 @@ TEXT = {
     "fft": "scipy.fft.fftn/ifftn (and torch.fft) multiply by the DFT matrix with the documented norm scalings on the given axes",
     "sqrtm": "scipy.linalg.sqrtm of a Hermitian positive matrix returns the principal root S: S S = A, S^H = S, S commutes with A",
     "inv": "linalg.inv returns the two-sided inverse of a non-singular matrix",
-    "eigh": "linalg.eigh returns ascending real eigenvalues and a unitary eigenvector matrix of a Hermitian matrix",
-    "eig": "linalg.eig returns an eigen-decomposition A V = V diag(w)",
+    "eigh": "linalg.eigh of a Hermitian matrix returns ascending real eigenvalues and a UNITARY eigenvector matrix",
+    "dftpp-gradient": "analytic differential of E(W) = sum_k wk tr(F Y^H H Y), Y = W U^-1/2, U = W^H O W at fixed Hermitian H (Comput. Phys. Commun. 128, 1): "
+                      "dY = D U^-1/2 for W^H O D = 0; for D = W A the orbitals rotate by exp(K) with K U^1/2 + U^1/2 K = U^1/2 A U^1/2 - (U^1/2 A U^1/2)^H to first order",
+    "sylvester-division": "for d_i > 0 the element-wise quotient C_ij = B_ij / (d_i + d_j) is the unique solution of C D + D C = B (D = diag(d)); it is (anti-)Hermitian if B is",
+    "eig": "linalg.eig returns an eigen-decomposition A V = V diag(w) with V invertible - NOT necessarily unitary for a Hermitian A with (nearly) degenerate eigenvalues; eigenvalues of a Hermitian positive definite A are real positive",
     "qr": "scipy.linalg.qr(pivoting=True) returns a unitary Q",
     "expm": "matrix_exp of an anti-Hermitian matrix is unitary",
     "root_scalar": "scipy.optimize.root_scalar(f, bracket=(a, b)) REQUIRES f(a) f(b) < 0 and returns a root in [a, b]",
